@@ -2,6 +2,7 @@ package main
 
 import (
 	"fmt"
+	"go/types"
 	"strings"
 
 	"golang.org/x/tools/go/ssa"
@@ -15,17 +16,36 @@ import (
 // its documented meaning is case-insensitive *equality* with some element —
 // a prefix or substring test would make "offline_reports" count as "offline".
 func checkStringInSlice(c *Ctx, rule string) {
+	checkMembershipHelper(c, rule, pkgRoot+".StringInSlice", 0, 1, "StringInSlice (behind Arguments.Has/HasOneOf/ExactOne)")
+}
+
+// checkResponseModeHas: the same for ResponseModeTypes.Has, which decides whether a response mode is handled by
+// the core writer or delegated to a custom handler before the redirect URI is re-validated.
+func checkResponseModeHas(c *Ctx, rule string) {
+	checkMembershipHelper(c, rule, "("+pkgRoot+".ResponseModeTypes).Has", 1, 0, "ResponseModeTypes.Has")
+}
+
+// checkVerifyAud: the JWT audience test behind MapClaims.VerifyAudience (client assertions: C10, JWT-bearer
+// grants: C15) accepts only a whole-string match of one audience entry; an absent audience passes only when
+// the claim is not required.
+func checkVerifyAud(c *Ctx, rule string) {
+	checkMembershipHelper(c, rule, pkgJWT+".verifyAud", 1, 0, "jwt.verifyAud (behind MapClaims.VerifyAudience)", func(p *Path, fn *ssa.Function) bool {
+		return p.Holds(atomEQ(call("len", paramNamed(fn, 0)), tInt(0)), true) && p.Holds(atomB(paramNamed(fn, 2)), false)
+	})
+}
+
+func checkMembershipHelper(c *Ctx, rule, name string, needleIdx, hayIdx int, display string, tolerated ...func(p *Path, fn *ssa.Function) bool) {
 	const role = "membership-helper"
-	fn := c.P.Func(pkgRoot + ".StringInSlice")
+	fn := c.P.Func(name)
 	if fn == nil {
-		c.RoleUnmatched(rule, role, "fosite.StringInSlice")
+		c.RoleUnmatched(rule, role, name)
 		return
 	}
 	ex := c.Explore(fn, ExploreConfig{}, "helper")
 	if !c.complete(ex, rule, role, fn) {
 		return
 	}
-	needle, hay := paramNamed(fn, 0), paramNamed(fn, 1)
+	needle, hay := paramNamed(fn, needleIdx), paramNamed(fn, hayIdx)
 	ok, n := true, 0
 	var w *Path
 	for _, p := range ex.Paths {
@@ -61,11 +81,16 @@ func checkStringInSlice(c *Ctx, rule string) {
 				eq = true
 			}
 		}
+		for _, t := range tolerated {
+			if !eq && t(p, fn) {
+				eq = true
+			}
+		}
 		if !eq {
 			ok, w = false, p
 		}
 	}
-	c.Check(ok && n > 0, rule, role, fn, "membership-is-equality", "StringInSlice (behind Arguments.Has/HasOneOf/ExactOne) is true only if the needle equals an element (case-insensitively), never on a prefix or substring", "true is returned without an equality between the needle and an element", w)
+	c.Check(ok && n > 0, rule, role, fn, "membership-is-equality", display+" is true only if the needle equals an element (case-insensitively), never on a prefix or substring", "true is returned without an equality between the needle and an element", w)
 }
 
 // Session expiry setter: SetExpiresAt(kind, t) records t unconditionally. Every
@@ -297,4 +322,430 @@ func checkFactoriesUseGivenStrategy(c *Ctx, rule string) {
 		c.RoleUnmatched(rule, role, fmt.Sprintf("at least 8 compose factories; found %d", n))
 	}
 	c.Check(len(bad) == 0, rule, role, nil, "no-private-strategy", "no compose factory constructs a token strategy of its own; handlers use the strategy the provider was composed with", strings.Join(bad, "; "), nil)
+}
+
+// Token endpoint: the request is populated before the handlers see it and is
+// not rewritten afterwards. The handlers validate requested scopes and audience
+// against the registration (client_credentials, password) or replace them by the
+// stored grant's (authorization_code, refresh_token); both are void if the form
+// values are installed only after the dispatch loop.
+func checkAccessRequestPopulated(c *Ctx, rule string) {
+	const role = "token-endpoint"
+	fn := c.P.Func("(*" + pkgRoot + ".Fosite).NewAccessRequest")
+	if fn == nil {
+		c.RoleUnmatched(rule, role, "(*Fosite).NewAccessRequest")
+		return
+	}
+	ex := c.Explore(fn, rootCfg(), "root")
+	if !c.complete(ex, rule, role, fn) {
+		return
+	}
+	ok, n := true, 0
+	why := ""
+	var w *Path
+	mentionsForm := func(t *Term, key string) bool {
+		return t.Mentions(func(x *Term) bool { return x.Op == "field" && x.Name == "PostForm" }) && (key == "" || t.Mentions(func(x *Term) bool { s, isStr := x.StrConst(); return isStr && s == key }))
+	}
+	for _, p := range ex.Paths {
+		var req *Term
+		first := -1
+		for i, e := range p.Events {
+			if e.Kind == "call" && e.Invoke && (e.Name == ".CanHandleTokenEndpointRequest" || e.Name == ".HandleTokenEndpointRequest") && len(e.Args) > 1 {
+				req, first = e.Arg(1), i
+				break
+			}
+		}
+		if req == nil {
+			continue
+		}
+		n++
+		have := map[string]bool{}
+		for _, e := range p.Events[:first] {
+			switch {
+			case e.Kind == "call" && e.Name == ".SetRequestedScopes" && e.Recv != nil && e.Recv.Key() == req.Key() && len(e.Args) > 0 && mentionsForm(e.Args[0], "scope"):
+				have["scope"] = true
+			case e.Kind == "call" && e.Name == ".SetRequestedAudience" && e.Recv != nil && e.Recv.Key() == req.Key() && len(e.Args) > 0 && mentionsForm(e.Args[0], ""):
+				have["audience"] = true
+			case e.Kind == "store" && len(e.Args) > 1 && addrRoot(e.Args[0]).Key() == req.Key():
+				switch {
+				case e.Name == "GrantTypes" && mentionsForm(e.Args[1], "grant_type"):
+					have["grant_type"] = true
+				case e.Name == "Form" && mentionsForm(e.Args[1], ""):
+					have["form"] = true
+				case e.Name == "RequestedScope" && mentionsForm(e.Args[1], "scope"):
+					have["scope"] = true
+				case e.Name == "RequestedAudience" && mentionsForm(e.Args[1], ""):
+					have["audience"] = true
+				}
+			}
+		}
+		for _, k := range []string{"scope", "audience", "grant_type", "form"} {
+			if !have[k] {
+				ok, w, why = false, p, "the handlers run before the request's "+k+" has been installed from the posted form"
+			}
+		}
+		seenHandle := false
+		for _, e := range p.Events[first:] {
+			if e.Kind == "call" && e.Invoke && e.Name == ".HandleTokenEndpointRequest" {
+				seenHandle = true
+				continue
+			}
+			if !seenHandle {
+				continue
+			}
+			wr := e.Kind == "store" && len(e.Args) > 1 && addrRoot(e.Args[0]).Key() == req.Key() ||
+				e.Kind == "call" && e.Recv != nil && e.Recv.Key() == req.Key() && (strings.HasPrefix(e.Name, ".Set") || strings.HasPrefix(e.Name, ".Grant") || strings.HasPrefix(e.Name, ".Merge") || strings.HasPrefix(e.Name, ".Append"))
+			if wr {
+				ok, w, why = false, p, fmt.Sprintf("the request is written (%s at %s) after a handler has validated it", strings.TrimPrefix(e.Name, "."), c.P.Pos(e.Instr.Pos()))
+			}
+		}
+	}
+	c.Check(ok && n > 0, rule, role, fn, "populated-before-dispatch", "NewAccessRequest installs form, grant_type, requested scope and audience before the first handler runs and does not write the request after a handler validated it", why, w)
+}
+
+// Registration getters of the reference client types. Every check that reads a
+// registration ("the client may use this response mode", "the registered
+// signing algorithm", "the registered redirect URIs") goes through the Client
+// interfaces; the reference types answer with the field of that name. A getter
+// that invents a permissive default for an empty registration (or answers from
+// a sibling field) widens what every handler allows. def is the one documented
+// default (returned exactly when the field is empty).
+type clientGetter struct{ typ, meth, field, def string }
+
+func checkClientGetters(c *Ctx, rule string, rows ...clientGetter) {
+	const role = "client-registration"
+	for _, g := range rows {
+		fn := c.P.Func("(*" + pkgRoot + "." + g.typ + ")." + g.meth)
+		if fn == nil {
+			c.RoleUnmatched(rule, role, "(*fosite."+g.typ+")."+g.meth)
+			continue
+		}
+		ex := c.Explore(fn, ExploreConfig{}, "client")
+		if !c.complete(ex, rule, role, fn) {
+			continue
+		}
+		fld := field(paramNamed(fn, 0), g.field)
+		ok, n := true, 0
+		why := ""
+		var w *Path
+		for _, p := range ex.Paths {
+			if p.Kind != "return" || len(p.Rets) != 1 {
+				continue
+			}
+			n++
+			r := p.Rets[0]
+			switch {
+			case r.Key() == fld.Key():
+			case r.Key() == tTrue.Key() || r.Key() == tFalse.Key():
+				if !p.Holds(atomB(fld), r.Key() == tTrue.Key()) {
+					ok, w, why = false, p, fmt.Sprintf("%s answers %s on a path where the registered %s is not known to have that value", g.meth, r.Name, g.field)
+				}
+			default:
+				s, isStr := r.StrConst()
+				if g.def != "" && isStr && s == g.def && p.EmptyStr(fld) {
+					continue
+				}
+				ok, w, why = false, p, fmt.Sprintf("%s returns %s, not the registered %s", g.meth, clip(r.Pretty(), 60), g.field)
+			}
+		}
+		c.Check(ok && n > 0, rule, role, fn, "registration-getter:"+g.typ+"."+g.meth, g.typ+"."+g.meth+" answers with the registered "+g.field+" (documented default only for an empty registration)", why, w)
+	}
+}
+
+// Credentials come from the request body. RFC 6749 §2.3.1: client credentials
+// "MUST NOT be included in the request URI". The endpoints hand
+// AuthenticateClient the form it may read client_id / client_secret /
+// client_assertion from; r.PostForm is the body, r.Form also contains the URL
+// query. Sites: token, device-authorization and revocation endpoints. The
+// pushed-authorization endpoint passes r.Form today and its unit tests build
+// requests that way — it is the one named exception (DESIGN section 5,
+// observed, not claimed).
+func checkCredentialsFromBody(c *Ctx, rule string) {
+	const role = "endpoint-authn"
+	target := c.P.Func("(*" + pkgRoot + ".Fosite).AuthenticateClient")
+	if target == nil {
+		c.RoleUnmatched(rule, role, "(*Fosite).AuthenticateClient")
+		return
+	}
+	exempt := map[string]bool{"NewPushedAuthorizeRequest": true}
+	n := 0
+	for _, fn := range c.P.MethodsOf(pkgRoot, "Fosite") {
+		for _, b := range fn.Blocks {
+			for _, ins := range b.Instrs {
+				call, ok := ins.(ssa.CallInstruction)
+				if !ok || call.Common().StaticCallee() != target || len(call.Common().Args) < 4 {
+					continue
+				}
+				if exempt[fn.Name()] {
+					continue
+				}
+				n++
+				src := ""
+				v := call.Common().Args[3]
+				if u, ok := v.(*ssa.UnOp); ok {
+					if fa, ok := u.X.(*ssa.FieldAddr); ok {
+						src = fieldNameOf(fa.X.Type(), fa.Field)
+					}
+				}
+				c.Check(src == "PostForm", rule, role, fn, "credentials-from-body", "the form handed to AuthenticateClient is the request body (r.PostForm), never a form that includes the URL query", "AuthenticateClient at "+c.P.Pos(ins.Pos())+" receives "+map[bool]string{true: "r." + src, false: "another value"}[src != ""], nil)
+			}
+		}
+	}
+	if n < 3 {
+		c.RoleUnmatched(rule, role, fmt.Sprintf("at least 3 endpoint call sites of AuthenticateClient (found %d)", n))
+	}
+}
+
+// JWKS cache identity: the key set a client assertion is verified against is
+// the one fetched from that client's jwks_uri. The fetcher caches by location;
+// the cache key must contain the whole location string (a truncated or
+// normalised key makes two clients share one entry, and one client's key then
+// authenticates the other), reads and writes use the same key, and the URL
+// fetched is the location itself.
+func checkJWKSCacheKey(c *Ctx, rule string) {
+	const role = "jwks-fetcher"
+	fn := c.P.Func("(*" + pkgRoot + ".DefaultJWKSFetcherStrategy).Resolve")
+	if fn == nil {
+		c.RoleUnmatched(rule, role, "(*DefaultJWKSFetcherStrategy).Resolve")
+		return
+	}
+	ex := c.Explore(fn, ExploreConfig{}, "jwks")
+	if !c.complete(ex, rule, role, fn) {
+		return
+	}
+	loc := paramNamed(fn, 2)
+	whole := func(k *Term) bool {
+		// location appears as a direct operand of a concatenation / format, not under a string function
+		found := false
+		var rec func(t *Term, ok bool)
+		rec = func(t *Term, ok bool) {
+			if t.Key() == loc.Key() && ok {
+				found = true
+			}
+			pass := ok && (t.Op == "bin" || t.Op == "lit" || t.IsCall("fmt.Sprintf") || t.IsCall("fmt.Sprint"))
+			for _, a := range t.Args {
+				rec(a, pass)
+			}
+		}
+		if k.Key() == loc.Key() {
+			return true
+		}
+		rec(k, true)
+		return found
+	}
+	ok, n := true, 0
+	why := ""
+	var w *Path
+	for _, p := range ex.Paths {
+		var first *Term
+		for _, e := range p.Events {
+			if e.Kind != "call" {
+				continue
+			}
+			if e.Recv != nil && e.Recv.Op == "field" && e.Recv.Name == "cache" && len(e.Args) > 0 && (strings.HasPrefix(e.Name, ".Get") || strings.HasPrefix(e.Name, ".Set")) {
+				n++
+				k := e.Args[0]
+				if !whole(k) {
+					ok, w, why = false, p, "the cache key "+clip(k.Pretty(), 70)+" does not contain the whole location"
+				}
+				if first == nil {
+					first = k
+				} else if first.Key() != k.Key() {
+					ok, w, why = false, p, "the cache is read under "+clip(first.Pretty(), 50)+" and written under "+clip(k.Pretty(), 50)
+				}
+			}
+			if e.Name == "retryablehttp.NewRequest" && len(e.Args) > 1 && e.Args[1].Key() != loc.Key() {
+				ok, w, why = false, p, "the URL fetched is "+clip(e.Args[1].Pretty(), 60)+", not the location"
+			}
+		}
+	}
+	c.Check(ok && n > 0, rule, role, fn, "cache-keyed-by-location", "the JWKS cache is read and written under one key that contains the whole jwks_uri, and that URI is what is fetched", why, w)
+}
+
+// Session clones share nothing with the stored session. The refresh flow (and
+// every flow that re-issues from a stored request) works on
+// original.GetSession().Clone() and then stamps new expiries / ID-token claims
+// into it; a clone that shares a map or pointer with the original rewrites the
+// stored record before (and regardless of whether) the transaction commits, and
+// two concurrent requests write the same object. Accepted shapes: the result is
+// deepcopy.Copy(receiver); or a fresh struct in which no pointer/map/slice/
+// interface field still holds the receiver's value (a whole-struct copy must
+// overwrite every such field, a field-wise copy must not copy one verbatim).
+func checkSessionCloneDeep(c *Ctx, rule string) {
+	const role = "session-clone"
+	n := 0
+	for _, fn := range c.Impls(pkgRoot, "Session", "Clone") {
+		if fn.Pkg == nil || !isSubjectPkg(fn.Pkg.Pkg.Path()) || len(fn.Params) == 0 {
+			continue
+		}
+		n++
+		recv := fn.Params[0]
+		why := ""
+		strip := func(v ssa.Value) ssa.Value {
+			for {
+				switch x := v.(type) {
+				case *ssa.MakeInterface:
+					v = x.X
+				case *ssa.TypeAssert:
+					v = x.X
+				case *ssa.ChangeInterface:
+					v = x.X
+				case *ssa.ChangeType:
+					v = x.X
+				default:
+					return v
+				}
+			}
+		}
+		isRef := func(t types.Type) bool {
+			switch t.Underlying().(type) {
+			case *types.Pointer, *types.Map, *types.Slice, *types.Interface, *types.Chan:
+				return true
+			}
+			return false
+		}
+		for _, b := range fn.Blocks {
+			for _, ins := range b.Instrs {
+				ret, ok := ins.(*ssa.Return)
+				if !ok || len(ret.Results) != 1 {
+					continue
+				}
+				v := strip(ret.Results[0])
+				if k, isC := v.(*ssa.Const); isC && k.IsNil() {
+					continue
+				}
+				if call, isCall := v.(*ssa.Call); isCall {
+					if cal := call.Common().StaticCallee(); cal != nil && cal.Name() == "Copy" && cal.Pkg != nil && strings.HasSuffix(cal.Pkg.Pkg.Path(), "deepcopy") && len(call.Common().Args) == 1 && strip(call.Common().Args[0]) == ssa.Value(recv) {
+						continue
+					}
+					why = "the clone is the result of " + call.Common().Value.String() + ", not deepcopy.Copy(receiver)"
+					continue
+				}
+				al, isAlloc := v.(*ssa.Alloc)
+				if !isAlloc {
+					why = "the clone is not a fresh object"
+					continue
+				}
+				st, _ := al.Type().Underlying().(*types.Pointer).Elem().Underlying().(*types.Struct)
+				if st == nil {
+					why = "the clone is not a struct"
+					continue
+				}
+				whole := false
+				over, alias := map[int]bool{}, map[int]bool{}
+				for _, ref := range *al.Referrers() {
+					switch r := ref.(type) {
+					case *ssa.Store:
+						if r.Addr == ssa.Value(al) {
+							if u, isU := r.Val.(*ssa.UnOp); isU && u.X == ssa.Value(recv) {
+								whole = true
+							}
+						}
+					case *ssa.FieldAddr:
+						for _, fr := range *r.Referrers() {
+							if s2, isS := fr.(*ssa.Store); isS && s2.Addr == ssa.Value(r) {
+								val := strip(s2.Val)
+								if u, isU := val.(*ssa.UnOp); isU {
+									if fa, isFA := u.X.(*ssa.FieldAddr); isFA && fa.X == ssa.Value(recv) {
+										alias[r.Field] = true
+										continue
+									}
+								}
+								over[r.Field] = true
+							}
+						}
+					}
+				}
+				for i := 0; i < st.NumFields(); i++ {
+					if !isRef(st.Field(i).Type()) {
+						continue
+					}
+					if alias[i] && !over[i] || whole && !over[i] {
+						why = "the clone shares the " + st.Field(i).Name() + " field (" + st.Field(i).Type().String() + ") with the session it was cloned from"
+					}
+				}
+			}
+		}
+		c.Check(why == "", rule, role, fn, "clone-shares-nothing", "Session.Clone returns deepcopy.Copy(receiver) or a fresh struct none of whose reference-typed fields still holds the receiver's value", why, nil)
+	}
+	if n < 2 {
+		c.RoleUnmatched(rule, role, fmt.Sprintf("at least 2 Session.Clone implementations (found %d)", n))
+	}
+}
+
+// JWT parsing: a signature failure ends the parse. ParseWithClaims verifies
+// the signature (parsedToken.Claims(key, ...)) and only then evaluates the
+// claims (claims.Valid()). Callers classify the returned ValidationError by its
+// bits ("an expired id_token_hint is fine"); if the unverified claims are still
+// evaluated after a signature failure and the bits merged, a forged token with
+// an old exp is reported as merely expired. Rule: on every path where the
+// signature check returned a non-nil error the function fails, and the error it
+// returns is not derived from claims.Valid().
+func checkParseSignatureFirst(c *Ctx, rule string) {
+	const role = "jwt-parse"
+	fn := c.P.Func(pkgJWT + ".ParseWithClaims")
+	if fn == nil {
+		c.RoleUnmatched(rule, role, "jwt.ParseWithClaims")
+		return
+	}
+	ex := c.Explore(fn, ExploreConfig{}, "jwt")
+	if !c.complete(ex, rule, role, fn) {
+		return
+	}
+	ok, n := true, 0
+	why := ""
+	var w *Path
+	for _, p := range ex.Paths {
+		if p.Kind != "return" {
+			continue
+		}
+		var sig *Event
+		for _, e := range p.Calls(".Claims") {
+			sig = e
+		}
+		if sig == nil || sig.Result == nil || !p.NonNil(sig.Result) {
+			continue
+		}
+		n++
+		if p.Classify() == ExitSuccess {
+			ok, w, why = false, p, "the parse succeeds although the signature check failed"
+			continue
+		}
+		if er := p.ErrRet(); er != nil && er.Mentions(func(t *Term) bool { return t.IsCall(".Valid") }) {
+			ok, w, why = false, p, "after a failed signature check the returned error is derived from claims.Valid() (the unverified claims are evaluated)"
+		}
+	}
+	c.Check(ok && n > 0, rule, role, fn, "signature-failure-ends-parse", "when the signature check fails ParseWithClaims fails with that error; the claims of an unverified token are not evaluated", why, w)
+}
+
+// Request getters that hand out the request's own storage. Handlers scrub and
+// amend the request through the getter (GetRequestForm().Del("client_secret"),
+// delete(GetRequestForm(), "password")); a getter that returns a copy turns
+// every such write into a no-op on the request that is stored.
+func checkRequestGetters(c *Ctx, rule string) {
+	const role = "request-getter"
+	for _, g := range []struct{ meth, field string }{{"GetRequestForm", "Form"}, {"GetSession", "Session"}, {"GetClient", "Client"}} {
+		fn := c.P.Func("(*" + pkgRoot + ".Request)." + g.meth)
+		if fn == nil {
+			c.RoleUnmatched(rule, role, "(*fosite.Request)."+g.meth)
+			continue
+		}
+		ex := c.Explore(fn, ExploreConfig{}, "request")
+		if !c.complete(ex, rule, role, fn) {
+			continue
+		}
+		fld := field(paramNamed(fn, 0), g.field)
+		ok, n := true, 0
+		var w *Path
+		for _, p := range ex.Paths {
+			if p.Kind != "return" || len(p.Rets) != 1 {
+				continue
+			}
+			n++
+			if p.Rets[0].Key() != fld.Key() {
+				ok, w = false, p
+			}
+		}
+		c.Check(ok && n > 0, rule, role, fn, "returns-own-storage:"+g.meth, "Request."+g.meth+" returns the request's "+g.field+" itself, so that writes through the getter reach the request", "the getter returns another value (a copy or a different field)", w)
+	}
 }
